@@ -37,6 +37,7 @@ CaseRec ==
      stacked |-> [i \in 1..N |-> StackedSum(profs[i])],
      roots   |-> [i \in 1..N |-> RootTotals(stored[i])],
      merged  |-> NodeSeq(Merged),
+     pmerged |-> LET o == SortIds(DOMAIN PayloadMerged) IN [i \in 1..Len(o) |-> [stack |-> o[i], val |-> PayloadMerged[o[i]]]],
      rows    |-> RowRefs(1),
      asc     |-> [ty \in Types |-> LayoutOut(RTAsc(ty))],
      desc    |-> [ty \in Types |-> LayoutOut(RTDesc(ty))]]
